@@ -33,7 +33,7 @@ namespace Scalibr.Worklist
 structure St (τ π : Type) where
   pending : List τ
   collected : List π
-deriving Repr
+deriving Repr, DecidableEq
 
 section generic
 variable {τ π : Type} (out : τ → Option π) (spawn : τ → List τ)
@@ -115,6 +115,18 @@ def verCmp {ν} (parse : Str → Option ν) (scmp : ν → ν → Int) (a b : St
   match parse a, parse b with
   | some x, some y => scmp x y
   | _, _ => cmpStr a b
+
+/-- the version grammar of the harness' universes: `<major>.0.0` with a decimal major without leading zero parses
+    (to the major); everything else ("^1.0.0", "1x", …) does not.  deps.dev's npm `semver.Parse`/`Compare` agree with
+    this on the strings the generator emits (asserted at generator start-up). -/
+def parseMajor (s : Str) : Option Nat :=
+  let r := s.reverse
+  match r with
+  | 48 :: 46 :: 48 :: 46 :: ds =>           -- "….0.0" reversed
+    let ds := ds.reverse
+    if ds.isEmpty || !ds.all (fun d => 48 ≤ d && d ≤ 57) || (ds.length > 1 && ds.head? = some 48) then none
+    else some (ds.foldl (fun acc d => acc * 10 + (d - 48)) 0)
+  | _ => none
 
 def ratio (a : Patch) : Int := (a.fixed.length : Int) - (a.introduced.length : Int)
 def nupd (a : Patch) : Int := (a.updates.length : Int)
